@@ -327,16 +327,23 @@ def _run(prop, tier, seed, backends, limited):
     reqs = [[f] for f in filters] + multi_filter_reqs(filters, rnd, 300 if tier == "quick" else 3000)
     histories = HISTORIES if tier == "thorough" else HISTORIES[:3]
     scripts = build_scripts(histories, reqs)
+    # thorough tier: the full grammar (all window combinations) under the first palette, the quick grammar under the others
+    # (the string domain and the window grid are independent dimensions; their full product ran for hours)
+    scripts_light = scripts
+    if tier == "thorough" and not limited:
+        rnd2 = random.Random(seed + 1)
+        light = grammar("quick", rnd2)
+        scripts_light = build_scripts(histories, [[f] for f in light] + multi_filter_reqs(light, rnd2, 300))
     jobs = []
     n_malformed = 0
     for pal in palettes:
         uni = Universe(query_universe(), palette=pal, symtab=QUERY_SYMTAB)
-        sc = scripts
+        sc = scripts if pal == palettes[0] else scripts_light
         if prop == "C01" and pal in ("plain", "quotes"):
             mal = malformed_reqs(uni)
             n_malformed = len(mal)
             pre = tuple(x for s_ in HISTORIES[0] for x in (("submit", s_), ("drain",)))
-            sc = scripts + [pre + tuple(("rawquery", c, a) for c, a in mal[b:b + 150]) for b in range(0, len(mal), 150)]
+            sc = sc + [pre + tuple(("rawquery", c, a) for c, a in mal[b:b + 150]) for b in range(0, len(mal), 150)]
         for backend in backends:
             jobs.append({"uni": uni, "backend": backend, "scripts": sc, "palette": pal, "max_limit": max_limit})
     import os
